@@ -225,17 +225,15 @@ func (c *Context) Mul(d, x, y *Decimal) (Condition, error) {
 		return 0, nil
 	}
 
+	// The exponent of the exact product may be outside of the package limits
+	// although that of the rounded product is not (the digits that are rounded
+	// away raise it), so the range is checked by the rounding, not before it.
+	e := x.Exponent + y.Exponent
 	d.Coeff.Mul(&x.Coeff, &y.Coeff)
 	d.Negative = neg
 	d.Form = Finite
-	res := d.setExponent(c, unknownNumDigits, 0, int64(x.Exponent), int64(y.Exponent))
-	if res.SystemOverflow() || res.SystemUnderflow() {
-		// The exponent is outside of the package limits and was not stored. d
-		// still has its previous exponent, which has nothing to do with the
-		// product and must not be rounded.
-		return c.goError(d.exponentLimit(c, res))
-	}
-	res |= c.round(d, d)
+	d.Exponent = e
+	res := c.round(d, d)
 	return c.goError(res)
 }
 
